@@ -482,6 +482,9 @@ impl Session {
                     }
                     num_adrreq = 0;
                     mask_rfu = false;
+                    // A later block in the same downlink starts from the mask in force, not from
+                    // what a refused block left behind in the working copy.
+                    channel_mask = region.channel_mask_get();
                 }
                 LinkCheckAns(..) => {
                     /* TODO: Payload contents are not consumed/handled
